@@ -316,8 +316,10 @@ def rule_common_flag(chk, P, rid, floor=5):
                                                                        c['e']['fn'] + '(...)', t.get('loc'), ', '.join(sorted(flags))))
         want = base.get(name, 0)
         if want or guarded:
-            r.check(guarded >= want, name, f.loc, '%s guards %d of its short/full keystream-round selections with an all-lanes flag; the reference '
-                                                  'tree guards %d (the flag and its test were removed together)' % (name, guarded, want))
+            # a routine that made the choice under the flag on the reference tree still makes it under the flag (how many selection sites it
+            # has is free: two ISA arms may be merged into one helper call)
+            r.check(guarded >= min(want, 1), name, f.loc, '%s no longer guards its short/full keystream-round selection with an all-lanes flag; on '
+                                                          'the reference tree it does (the flag and its test were removed together)' % name)
 
 
 # ------------------------------------------------------------------------------------------------------------------------------
